@@ -195,6 +195,10 @@ def check(case) -> Outcome:
             # position must not depend on it
             pre = case_variant(blob, decoy) + b" lorem ipsum " + pre
             o.label("earlier-case-variant")
+        if decoy and k == "createobject":
+            # an earlier call that is never closed (a comment, a truncated line): later well-formed calls are still reported
+            pre = [b"' CreateObject( takes a ProgID\n", b"x = createobject(\"a(\" : ", b"CREATEOBJECT( "][decoy - 1] + pre
+            o.label("earlier-unclosed-call")
         if k == "url" and pre:
             prev = pre[-1]
             ctx10 = pre[-10:]
